@@ -350,6 +350,7 @@ def emit(prop, case, obs):
 # generation
 
 SEPS = ["/", "\\", "-", ".", "|"]
+MSEPS = ["->", "::", "=>", "//", "-|-"]      # multi-character separators
 NAME_POOLS = {
     "distinct": ["a", "b", "c", "d", "e", "f", "g", "h", "i", "j", "k", "l", "m", "n", "o"],
     "repeated": ["a", "b", "c", "d"],
@@ -443,9 +444,9 @@ def _rand_attrs(rng, nd):
         nd["s"] = rng.choice(SEPS)                           # the node's own _sep (only the root's counts)
 
 
-def gen_tree(rng, shape, pool_name, n, bad_chars):
+def gen_tree(rng, shape, pool_name, n, name_ok, extra=()):
     par = gen_shape(rng, shape, n)
-    pool = [s for s in NAME_POOLS[pool_name] if not any(ch in s for ch in bad_chars)]
+    pool = [s for s in NAME_POOLS[pool_name] + list(extra) if name_ok(s)]
     nodes = []
     for i in range(n):
         sib = [] if par[i] is None else [k["n"] for k in nodes[par[i]]["k"]]
@@ -457,10 +458,10 @@ def gen_tree(rng, shape, pool_name, n, bad_chars):
     return nodes[0]
 
 
-def gen_binary_tree(rng, shape, pool_name, n, bad_chars):
+def gen_binary_tree(rng, shape, pool_name, n, name_ok, extra=()):
     """random BinaryNode tree with n real nodes: each new node goes into a free slot; `deep` prefers the
     most recent node, `path` makes a zigzag chain (always one empty slot)"""
-    pool = [s for s in NAME_POOLS[pool_name] + ["1", "2", "30"] if not any(ch in s for ch in bad_chars)]
+    pool = [s for s in NAME_POOLS[pool_name] + ["1", "2", "30"] + list(extra) if name_ok(s)]
     nodes = [_node(_pick_name(rng, pool, [], 0), True)]
     depth = [1]
     _rand_attrs(rng, nodes[0])
@@ -572,10 +573,26 @@ def gen_case(rng, tier):
         n = max(n, 4)
     if binary:
         n = min(n, 11)
-    tsep = rng.choice(SEPS)
-    psep = tsep if rng.random() < 0.6 else rng.choice(SEPS)
-    bad = set(tsep) | set(psep)
-    tree = gen_binary_tree(rng, shape, pool_name, n, bad) if binary else gen_tree(rng, shape, pool_name, n, bad)
+    tsep = rng.choice(MSEPS) if rng.random() < 0.35 else rng.choice(SEPS)
+    psep = tsep if rng.random() < 0.6 else rng.choice(SEPS + MSEPS)
+    # the guard of the theorems: no character of a separator occurs in a name.  K3 territory (15% of the
+    # multi-character tree separators): names may start/end with a character of the tree separator, they
+    # only never contain a whole separator
+    k3 = len(tsep) > 1 and rng.random() < 0.15
+    extra = []
+    if k3:
+        extra = [x for ch in sorted(set(tsep)) for x in ("a" + ch, ch + "a", "b" + ch)] * 2
+        other = set(psep) - set(tsep)
+
+        def name_ok(nm):
+            return tsep not in nm and psep not in nm and not any(ch in nm for ch in other)
+    else:
+        badc = set(tsep) | set(psep)
+
+        def name_ok(nm):
+            return not any(ch in nm for ch in badc)
+    tree = (gen_binary_tree(rng, shape, pool_name, n, name_ok, extra) if binary
+            else gen_tree(rng, shape, pool_name, n, name_ok, extra))
     whole = _walk(tree)
     start = []
     if inner:
@@ -587,7 +604,8 @@ def gen_case(rng, tier):
     outside = [w for w in whole if w["pos"][:len(start)] != start]
     sd = walk[0]["d"]
     h = _height(sd)
-    mode = ("bin" if binary else "node") + ("-inner" if start else "")
+    mode = ("bin" if binary else "node") + ("-inner" if start else "") + ("+msep" if len(tsep) > 1 else "") \
+        + ("+k3" if k3 else "")
     fn = "prune" if rng.random() < 0.72 else "subtree"
     if fn == "prune":
         r = rng.random()
@@ -776,10 +794,14 @@ def corpus(prop):
 def matches_finding(prop, entry, case, obs, flags):
     if entry.get("id") != "K3-C14":
         return False
-    multichar = len(case["sep"]) > 1
-    # the documented behaviour: the model (character-set rstrip) agrees with the implementation and the
+    tsep = case["sep"]
+    if len(tsep) <= 1 or flags != 2:
+        return False
+    # the documented behaviour: a multi-character tree separator, some name of the tree starts or ends with
+    # one of its characters, the model (character-set rstrip) agrees with the implementation and the
     # property predicate (whole-separator stripping) is false on that output
-    return multichar and flags == 2
+    chars = set(tsep)
+    return any(w["d"]["n"] and (w["d"]["n"][0] in chars or w["d"]["n"][-1] in chars) for w in _walk(case["tree"]))
 
 
 # ---------------------------------------------------------------------------------------------
@@ -866,8 +888,10 @@ def sample(prop, case, obs):
 
 def rule(prop):
     return ("random trees (1-13 nodes; shapes wide/deep/mixed/path/star/bushy-at-depth>=4; name pools distinct/"
-            "repeated-across-branches/affix-related a,xa,b,ab,bc/special characters; separators / \\ - . |, prune "
-            "separator equal or different); modes: Node tree called on its root (55%) or on an inner node (20%), "
+            "repeated-across-branches/affix-related a,xa,b,ab,bc/special characters; tree separators / \\ - . | (65%) "
+            "or -> :: => // -|- (35%), prune separator equal or different; names free of separator characters "
+            "except in 15% of the multi-character cases (names starting/ending with a separator character: K3 "
+            "territory, matched to K3-C14 only when flags==2 and such a name exists); modes: Node tree called on its root (55%) or on an inner node (20%), "
             "BinaryNode tree with empty slots on root (17%) or inner node (8%); x prune_tree(0-3 non-nested targets "
             "below the start node written as full/partial/bare-name paths, leading/trailing separator, missing paths "
             "incl. nodes outside the start node's subtree, empty paths, str or list argument, exact on/off, max_depth "
@@ -909,10 +933,19 @@ def partial_clauses(prop):
     return [
         "nested prune targets (one target an ancestor of another) are outside the property's quantifier: the "
         "check skips them (F_SKIP) and C14_prune_kept carries the hypothesis `nested _ = false`",
-        "theorems that speak about which node a path addresses (C14_model_satisfies_prop(_inner), C14_prune_kept, "
-        "C14_missing_path_error, C14_subtree_spec) are for a one-character tree separator; for multi-character "
-        "separators the faithful model violates the predicate (C14_multichar_sep_refuted = known finding K3-C14); "
-        "C14_prune_kept_any_sep, C14_prune_depth, C14_prune_attrs_order, C14_detach_rule hold for all separators",
+        "separators: the addressing theorems hold for tree separators of ANY positive length "
+        "(C14_model_satisfies_prop_multi / _inner_multi, C14_prune_kept_multi, C14_missing_path_error_multi, "
+        "C14_missing_subtree_error_multi, C14_subtree_spec_multi) under the guard `strip_ok`: on every path, "
+        "stripping the separator's character set from the right (what the code does) equals stripping whole "
+        "separators.  The guard is proved for every path when the separator is one character "
+        "(C14_paths_ok_one_char: the original theorems are these instances) and for every well-formed path - "
+        "components non-empty and free of separator characters, e.g. names of a tree whose names contain no "
+        "character of the separator, joined by the separator, optional text in front, any number of whole "
+        "trailing separators (C14_paths_ok_wellformed).  Outside the guard the faithful model violates the "
+        "predicate: a name ending in a separator character (C14_multichar_sep_refuted = known finding K3-C14) or "
+        "a malformed path such as 'b>' for sep '->' (C14_multichar_malformed_path_refuted; not generated). "
+        "C14_prune_kept_any_sep, C14_prune_depth, C14_prune_attrs_order, C14_detach_rule hold without any guard; "
+        "the `sep` argument of prune_tree is unrestricted (only str.replace is applied to it)",
         "a prune path that addresses several nodes is answered by SearchError in model and code; the predicate "
         "makes no claim there (documented precondition: path names unique); model and code are still compared",
         "inner start node: modelled, compared and proved (C14_model_satisfies_prop_inner) under the reading 'the "
